@@ -545,6 +545,58 @@ pub fn run_c06(ctx: &Ctx) -> i32 {
         parts.push(json!({"part": "histories", "keys": nkeys, "max_len": maxlen, "base_variant": bv, "sequences": n}));
     }
 
+    // (c) long logs: a write-cache that already holds F pending operations (a fixed pattern over
+    // the three keys), then every tail of up to T writes, then commit - at one and at two levels
+    // (the inner commit feeds the outer cache). How many operations a cache has pending is a
+    // dimension of its own (anything that treats its log or its map differently by size).
+    {
+        let fillers: Vec<usize> = ctx.tier.pick(vec![31, 33, 48], vec![15, 31, 32, 33, 40, 48, 64, 100, 200]);
+        let tail_max = ctx.tier.pick(2usize, 3usize);
+        let cycle = [HOp::Set(0, 0), HOp::Set(1, 1), HOp::Set(2, 0), HOp::Remove(0), HOp::Set(1, 0), HOp::Remove(2), HOp::Set(0, 1), HOp::Set(2, 1), HOp::Remove(1), HOp::Set(2, 2), HOp::Set(0, 2)];
+        let writes: Vec<HOp> = hsymbols(3).into_iter().filter(|o| matches!(o, HOp::Set(..) | HOp::Remove(_))).collect();
+        let mut tails: Vec<Vec<HOp>> = vec![vec![]];
+        let mut layer: Vec<Vec<HOp>> = vec![vec![]];
+        for _ in 0..tail_max {
+            let mut next = vec![];
+            for t in &layer {
+                for w in &writes {
+                    let mut x = t.clone();
+                    x.push(*w);
+                    next.push(x);
+                }
+            }
+            tails.extend(next.iter().cloned());
+            layer = next;
+        }
+        let mut jobs: Vec<(usize, usize, &Vec<HOp>)> = vec![];
+        for f in &fillers {
+            for levels in [1usize, 2] {
+                for t in &tails {
+                    jobs.push((*f, levels, t));
+                }
+            }
+        }
+        let nseq = AtomicU64::new(0);
+        jobs.par_chunks(32).for_each(|ch| {
+            let mut louts: Vec<u64> = vec![];
+            for (f, levels, tail) in ch {
+                let mut ops: Vec<HOp> = vec![HOp::Push; *levels];
+                ops.extend((0..*f).map(|i| cycle[i % cycle.len()]));
+                ops.extend(tail.iter().copied());
+                ops.extend(std::iter::repeat(HOp::PopCommit).take(*levels));
+                let (e, t, out) = c06_history(ctx, &ops, 0);
+                evals.fetch_add(e, Relaxed);
+                transitions.fetch_add(t, Relaxed);
+                louts.extend(out);
+                nseq.fetch_add(1, Relaxed);
+            }
+            distinct.extend(louts);
+        });
+        let n = nseq.load(Relaxed);
+        states.fetch_add(n, Relaxed);
+        parts.push(json!({"part": "long-logs", "pending_operations_before_the_tail": fillers, "tail_max_len": tail_max, "levels": [1, 2], "sequences": n}));
+    }
+
     let n_states = states.load(Relaxed);
     let coverage = json!({
         "states": n_states,
